@@ -329,6 +329,18 @@ def _prefix_chunk(lists):
     return part
 
 
+def word_name_lists():
+    """Nicknames that happen to begin like something else the lookup understands: a port name
+    (COM..., /dev/...), the product name, a tag of the hardware id."""
+    out = []
+    for name in ("Comet", "COMPASS", "Commodore 64", "com", "COM1x", "/dev/null", "/dev/ttyACM0b",
+                 "ttyACM7", "usbmodem", "EiBotBoard", "EiBot", "SER", "SER=7", "SNR", "LOCATION",
+                 "USB", "VID", "04D8"):
+        for style in ("descr", "ser", "snr", "ser_end"):
+            out.append((style, name))
+    return out
+
+
 def _names_chunk(items):
     part = core.Part()
     for style, name in items:
@@ -376,7 +388,7 @@ def run(ctx):
             jobs.append((chunk, length))
     part = core.fan_out(ctx, _chunk, jobs)
     part.merge(core.fan_out(ctx, _reuse_chunk, core.split(short_lists(), 32)))
-    part.merge(core.fan_out(ctx, _names_chunk, core.split(name_alphabet_lists(), 16)))
+    part.merge(core.fan_out(ctx, _names_chunk, core.split(name_alphabet_lists() + word_name_lists(), 16)))
     part.merge(core.fan_out(ctx, _prefix_chunk, core.split(prefix_name_lists() + odd_hwid_lists(), 8)))
     for clause, msg, _l in check_raising():
         part.violation(clause, msg, {"kind": "raising"})
